@@ -1,0 +1,68 @@
+//go:build verif
+
+package jsonx
+
+import (
+	"bytes"
+
+	"shanhu.io/g/lexing"
+)
+
+// VerifRawTokens runs the bare JSONx lexer (lexJSONX, no token filters) over
+// input and returns every token up to and including EOF, and the lexer's
+// error list.
+func VerifRawTokens(input []byte) ([]*lexing.Token, []*lexing.Error) {
+	x := lexing.MakeLexer("", bytes.NewReader(input), lexJSONX)
+	return lexing.Tokens(x)
+}
+
+// VerifTokens runs the tokener chain the parser reads from (lexer, semicolon
+// inserter, keyworder) over input.
+func VerifTokens(input []byte) ([]*lexing.Token, []*lexing.Error) {
+	return lexing.Tokens(tokener("", bytes.NewReader(input)))
+}
+
+// VerifParserTokens returns the tokens as the parser sees them (comments
+// removed).
+func VerifParserTokens(input []byte) ([]*lexing.Token, []*lexing.Error) {
+	p, _ := newParser("", bytes.NewReader(input))
+	var ret []*lexing.Token
+	for {
+		t := p.Token()
+		ret = append(ret, t)
+		if t.Type == lexing.EOF {
+			break
+		}
+		p.Next()
+	}
+	return ret, p.Errs()
+}
+
+// VerifTokenTypeName names a token type of this package.
+func VerifTokenTypeName(t int) string {
+	switch t {
+	case tokKeyword:
+		return "keyword"
+	case tokIdent:
+		return "ident"
+	case tokString:
+		return "string"
+	case tokInt:
+		return "int"
+	case tokFloat:
+		return "float"
+	case tokOperator:
+		return "operator"
+	case tokSemi:
+		return "semi"
+	case tokEndl:
+		return "endl"
+	case lexing.EOF:
+		return "eof"
+	case lexing.Comment:
+		return "comment"
+	case lexing.Illegal:
+		return "illegal"
+	}
+	return "unknown"
+}
